@@ -1575,7 +1575,8 @@ fn main() {
             };
             let mut fails = vec![];
             let mut stats = BTreeMap::new();
-            let mut out = std::io::BufWriter::new(stdout.lock());
+            // buffered locally: the watchdog thread must be able to take the stdout lock
+            let mut out: Vec<u8> = vec![];
             let mut ncases = 0;
             for c in &cases {
                 let before = fails.len();
@@ -1598,6 +1599,7 @@ fn main() {
                 let st: Vec<String> = stats.iter().map(|(k, v)| format!("{}:{}", jstr(k), v)).collect();
                 writeln!(out, "STATS {{\"cases\":{}{}{}}}", ncases, if st.is_empty() { "" } else { "," }, st.join(",")).unwrap();
             }
+            stdout.lock().write_all(&out).unwrap();
         }
         x => panic!("unknown subcommand {}", x),
     }
